@@ -163,3 +163,52 @@ Theorem C13_short_stream_flat :
     flat_decode_scoped t c delivered scope = Err.
 Proof. exact flat_short_stream. Qed.
 Print Assumptions C13_short_stream_flat.
+
+(* ======================= a writer that makes short writes ======================= *)
+(* ---- d'. the writer, when the underlying io.Writer makes SHORT writes: EncodingWriter.Write is
+   the loop   for n < len(p) { d, err := w.Write(p[n:]); ew.n += d; if err != nil { return err };
+   n += d }.   Model (Extras.v): [cw_write_all (mkCW budget k accepted n) chunks] — the
+   underlying writer takes at most k >= 1 bytes per call with a nil error, and fails once its
+   budget ([Some b]; [None] = never fails) is used up, accepting the part that still fits;
+   [cw_accepted] = what the underlying writer took, [cw_n] = the EncodingWriter's own counter.
+   Whatever the chunk size: the bytes accepted are a prefix of the encoding, the counter equals
+   what the writer accepted (also when the failure happens in the middle of the retries of one
+   slice), an error is returned exactly when the writer failed, and the outcome is the same as
+   with the one-call-per-slice writer [ew_write_all] of IO.v.
+   (k = 0, a writer returning (0, nil) for ever, is excluded: Go's loop would spin, the model
+   runs out of fuel — ChunkWriterProofs.cw_chunk0_out_of_fuel.) ---- *)
+From Ztyp Require Import Base Spec IO Extras ChunkWriterProofs.
+Open Scope N_scope.
+
+Theorem C13_chunked_writer_prefix : forall b k chunks w ok,
+  1 <= k ->
+  cw_write_all (mkCW (Some b) k [] 0) chunks = (w, ok) ->
+  cw_accepted w = firstn (nat_of b) (concat chunks) /\
+  cw_n w = N.min b (lenN (concat chunks)) /\
+  (ok = true <-> lenN (concat chunks) <= b).
+Proof. exact chunked_writer_prefix. Qed.
+Print Assumptions C13_chunked_writer_prefix.
+
+(* any budget ([Some b] or [None]) *)
+Theorem C13_chunked_writer_counter : forall bud k chunks w ok,
+  1 <= k ->
+  cw_write_all (mkCW bud k [] 0) chunks = (w, ok) -> cw_n w = lenN (cw_accepted w).
+Proof. exact chunked_writer_counter. Qed.
+Print Assumptions C13_chunked_writer_counter.
+
+Theorem C13_chunked_writer_nofail : forall k chunks,
+  1 <= k ->
+  cw_write_all (mkCW None k [] 0) chunks =
+  (mkCW None k (concat chunks) (lenN (concat chunks)), true).
+Proof. exact chunked_writer_nofail_eq. Qed.
+Print Assumptions C13_chunked_writer_nofail.
+
+(* the chunk size does not matter: same accepted bytes, counter, remaining budget and result
+   as the writer of IO.v that takes each slice in one call *)
+Theorem C13_chunked_equals_unchunked : forall bud k chunks cw cok w ok,
+  1 <= k ->
+  cw_write_all (mkCW bud k [] 0) chunks = (cw, cok) ->
+  ew_write_all (mkW bud [] 0) chunks = (w, ok) ->
+  w_accepted w = cw_accepted cw /\ w_n w = cw_n cw /\ w_budget w = cw_budget cw /\ ok = cok.
+Proof. exact chunked_equals_unchunked. Qed.
+Print Assumptions C13_chunked_equals_unchunked.
